@@ -132,6 +132,8 @@ func vAssert(c bool, msg string) {
 func vReach(label string)             { vfmt.Println("VERIF-REACH " + label) }
 func vObserve(label string, v uint64) { vfmt.Printf("VERIF-OBS %%s=%%d\n", label, v) }
 
+func vInsertionSort(n int, less func(i, j int) bool, swap func(i, j int)) {}
+
 func vRunHarness(fns map[string]func()) {
 	vLoadVector()
 	f, ok := fns[vos.Getenv("VERIF_ENTRY")]
